@@ -79,28 +79,46 @@ def b64dec : List Char → Option (List UInt8)
 def dateLo' : Int := -62167219200
 def dateHi' : Int := 253402300799
 
-/-- days from 1970-01-01 to the civil date `y-m-d` (proleptic Gregorian calendar; Hinnant's algorithm) -/
+/-! ### the calendar (proleptic Gregorian, Hinnant's `days_from_civil` / `civil_from_days`), with the part inside
+    one 400-year era (146 097 days, starting on March 1 of a year ≡ 0 mod 400) on `Nat` -/
+
+/-- year of the era of a day of the era -/
+def yoeOf (doe : Nat) : Nat := (doe - doe / 1460 + doe / 36524 - doe / 146096) / 365
+/-- first day of the era of a (March-based) year of the era -/
+def baseOf (y : Nat) : Nat := 365 * y + y / 4 - y / 100
+/-- length of the March-based year `y` of an era: it holds the February of civil year `y + 1` -/
+def yearLen (y : Nat) : Nat := if (y + 1) % 4 = 0 ∧ ((y + 1) % 100 ≠ 0 ∨ (y + 1) % 400 = 0) then 366 else 365
+/-- March-based month (0 = March … 11 = February) of a day of the year -/
+def mpOf (doy : Nat) : Nat := (5 * doy + 2) / 153
+/-- first day of the year of a March-based month -/
+def dpreOf (mp : Nat) : Nat := (153 * mp + 2) / 5
+def monthOfMp (mp : Nat) : Nat := if mp < 10 then mp + 3 else mp - 9
+def mpOfMonth (m : Nat) : Nat := (m + 9) % 12
+
+/-- day of the era → (year of the era, month 1–12, day 1–31) -/
+def civilOfDoe (doe : Nat) : Nat × Nat × Nat :=
+  (yoeOf doe, monthOfMp (mpOf (doe - baseOf (yoeOf doe))),
+    doe - baseOf (yoeOf doe) - dpreOf (mpOf (doe - baseOf (yoeOf doe))) + 1)
+
+/-- (year of the era, month, day) → day of the era -/
+def doeOfCivil (yoe m d : Nat) : Nat := baseOf yoe + (dpreOf (mpOfMonth m) + d - 1)
+
+/-- the civil date of a day number (days since 1970-01-01) -/
+def civilFromDays (z0 : Int) : Int × Nat × Nat :=
+  let era := (z0 + 719468) / 146097
+  let c := civilOfDoe ((z0 + 719468) - era * 146097).toNat
+  ((c.1 : Int) + era * 400 + (if c.2.1 ≤ 2 then 1 else 0), c.2.1, c.2.2)
+
+/-- days from 1970-01-01 to the civil date `y-m-d` -/
 def daysFromCivil (y : Int) (m d : Nat) : Int :=
   let y' : Int := if m ≤ 2 then y - 1 else y
   let era : Int := y' / 400
-  let yoe : Int := y' - era * 400
-  let mp : Int := (((m : Int) + 9) % 12)
-  let doy : Int := (153 * mp + 2) / 5 + (d : Int) - 1
-  let doe : Int := yoe * 365 + yoe / 4 - yoe / 100 + doy
-  era * 146097 + doe - 719468
+  era * 146097 + (doeOfCivil (y' - era * 400).toNat m d : Nat) - 719468
 
-/-- the civil date of a day number (days since 1970-01-01; Hinnant's `civil_from_days`) -/
-def civilFromDays (z0 : Int) : Int × Nat × Nat :=
-  let z := z0 + 719468
-  let era := z / 146097
-  let doe := z - era * 146097
-  let yoe := (doe - doe / 1460 + doe / 36524 - doe / 146096) / 365
-  let y := yoe + era * 400
-  let doy := doe - (365 * yoe + yoe / 4 - yoe / 100)
-  let mp := (5 * doy + 2) / 153
-  let d := doy - (153 * mp + 2) / 5 + 1
-  let m := if mp < 10 then mp + 3 else mp - 9
-  (if m ≤ 2 then y + 1 else y, m.toNat, d.toNat)
+/-- a Gregorian leap year -/
+def isLeap (y : Int) : Bool := y % 4 = 0 ∧ (y % 100 ≠ 0 ∨ y % 400 = 0)
+def daysInMonth (y : Int) (m : Nat) : Nat :=
+  if m = 2 then (if isLeap y then 29 else 28) else if m = 4 ∨ m = 6 ∨ m = 9 ∨ m = 11 then 30 else 31
 
 def digitChar (d : Nat) : Char := Char.ofNat (48 + d % 10)
 def digitVal? (ch : Char) : Option Nat := if 48 ≤ ch.toNat ∧ ch.toNat ≤ 57 then some (ch.toNat - 48) else none
@@ -196,5 +214,8 @@ def refCodec : Codec where
     if dateLo ≤ d.secs ∧ d.secs ≤ dateHi ∧ d.nanos < 1000000000
     then some (((d.secs - dateLo).toNat * 1000000000 + d.nanos).repr) else none
   readDate s := s.toNat?.map fun n => ⟨(n / 1000000000 : Nat) + dateLo, n % 1000000000⟩
+
+/-- the reference codec with the date component replaced by the real RFC 3339 implementation -/
+def realDateCodec : Codec := { refCodec with showDate := rfc3339Show, readDate := rfc3339Read }
 
 end C18
